@@ -1260,6 +1260,10 @@ def _seq_ite(c, fa, fb):
     b = e.under(z3.Not(zb(c)), fb)
     if isinstance(a, (list, tuple)) and isinstance(b, (list, tuple)) and len(a) == len(b):
         return type(a)(_seq_ite(c, (lambda x=x: x), (lambda y=y: y)) for x, y in zip(a, b))
+    if isinstance(a, Arr) and isinstance(b, Arr) and a.ndim == b.ndim:
+        fa2, fb2 = a.snapshot_fn(), b.snapshot_fn()
+        r = Arr(a.shape, lambda idx: ite(c, fa2(idx), fb2(idx)), dtype=a.kind)
+        return r
     return ite(c, a, b)
 
 
